@@ -134,6 +134,12 @@ func runAdapt(c *sup.Child, b sup.Batch) {
 				m[names[(target+1)%n]] = ob.String() + "end"
 				r.AddObs("adapt_maps_with_prefix_lines_spread_over_two_values", 1)
 			}
+			if idx%4 == 3 {
+				// a very long line (minified JSON, a base64 blob: longer than any line buffer) comes
+				// first; the lines that look like the delimiter follow it
+				m[names[target]] = strings.Repeat("Qx9+/", (65536+rng.Intn(40000))/5+1) + "\nE\xc3\xa9 one\nEO\xffx\nEOF\x88\n" + m[names[target]]
+				r.AddObs("adapt_values_with_a_line_longer_than_64_KiB_before_the_terminator_like_lines", 1)
+			}
 			budget := maxViol
 			checkMap(r, variant, m, useSetAll, &budget)
 			r.AddObs("adapt_runs", 1)
